@@ -109,7 +109,10 @@ def sc_packages(name, expr, packages):
     ev = GT.make_evaluators(packages=packages)
     tree = parse_condition_expression_to_tree(expr)
     plan = PL.seq(PL.plan_expand_packages(tree))
+    import re
+    substituted = re.sub(r"\[(\d+P)[^\]]*\]", lambda m: "(" + packages[m.group(1)] + ")", expr)     # every occurrence paired with ITS package
     return A.Scenario(name, plan, lambda: expand_packages(copy.deepcopy(tree)), ev, project=ahb.tree_shape,
+                      expected=ahb.tree_shape(parse_condition_expression_to_tree(substituted)),
                       describe=f"expand_packages('{expr}') with {packages}")
 
 
